@@ -237,15 +237,15 @@ pub fn c02(tier: &str) -> ! {
         run_crash(&mut rep, "generated<=3", generated_histories(&all_cfgs, 3), spec(false), budget(tier, 25, 0), own);
         run_crash(&mut rep, "generated<=2+nested", generated_histories(&all_cfgs, 2), spec(true), budget(tier, 15, 0), own);
     }
-    // crash consistency under concurrency: at every file removal of every explored schedule of the
+    // crash consistency under concurrency: at every file removal, manifest write and rename of every explored schedule of the
     // single-writer-vs-compaction programs a crash image is recovered (shared with C11)
     {
-        use crate::props_sched::{c11_removal_programs, run_sched};
-        let own2 = |c: &str| c == "C11.needed_file_removed";
+        use crate::props_sched::{c02_meta_programs, run_sched};
+        let own2 = |c: &str| c == "C11.needed_file_removed" || c == "C02.concurrent_crash";
         if t {
-            run_sched(&mut rep, "crash-at-every-removal/p2d4", &c11_removal_programs(), (2, 4), 16, false, 2, Duration::from_secs(1500), own2);
+            run_sched(&mut rep, "crash-at-every-removal-manifest-write-rename/p2d4", &c02_meta_programs(), (2, 4), 16, false, 2, Duration::from_secs(1500), own2);
         } else {
-            run_sched(&mut rep, "crash-at-every-removal/p1d3", &c11_removal_programs(), (1, 3), 4, false, 1, Duration::from_secs(20), own2);
+            run_sched(&mut rep, "crash-at-every-removal-manifest-write-rename/p1d3", &c02_meta_programs(), (1, 3), 4, false, 1, Duration::from_secs(20), own2);
         }
     }
     for a in CRASH_ASSUMPTIONS {
